@@ -41,6 +41,7 @@ enum
     /* meta */
     MOP_SCRIBBLE,           /* caller overwrites pixels of an image it owns */
     MOP_ALIAS,              /* a second image over the pixels of another one (the "pixbuf" idiom: x888 source + a888 mask on the same bits) */
+    MOP_BITS_HUGE,          /* an image of 4 GiB or more whose pixels pixman allocates itself */
     MOP_N
 };
 
@@ -101,6 +102,9 @@ typedef struct machine
     int cb_unexpected;            /* destroy callback for an object the machine no longer tracks */
     arena_buf_t *retired[64];     /* storage of released images: kept until the machine goes, aliases may still point into it */
     int n_retired;
+    int allow_huge;               /* MOP_BITS_HUGE is honoured (only the world that never walks whole images sets it) */
+    int own_violation;            /* pixel storage pixman allocated itself is smaller than the image it describes */
+    char own_detail[160];
     int ledger_violation;         /* lifetime ledger (C20): first discrepancy */
     char ledger_detail[200];
     uint8_t releasing[M_NIMG];    /* slots the model releases in the current op */
